@@ -452,7 +452,16 @@ func (h *handler) processStreamingRpc(
 	info *serviceInfo,
 	sd *grpc.StreamDesc,
 	rpc *goatorepo.Rpc,
-) error {
+) (err error) {
+	// A reset is handed to the writer only once h.mu has been released (this
+	// is deferred first, so it runs last).
+	sendReset := false
+	defer func() {
+		if sendReset {
+			err = h.resetStream(rpc)
+		}
+	}()
+
 	h.mu.Lock()
 	defer h.mu.Unlock()
 
@@ -484,7 +493,8 @@ func (h *handler) processStreamingRpc(
 		// it must have an empty body. If this isn't the case, it must be because
 		// we've missed the first Rpc in the stream.
 		log.Info().Msgf("did not expect body: calling RST stream %d", rpc.Id)
-		return h.resetStream(rpc)
+		sendReset = true
+		return nil
 	}
 
 	if rpc.GetTrailer() != nil {
@@ -496,7 +506,8 @@ func (h *handler) processStreamingRpc(
 	ctx, cancel, err := contextFromHeaders(clientCtx, rpc.GetHeader())
 	if err != nil {
 		log.Info().Msgf("invalid headers: calling RST stream %d", rpc.Id)
-		return h.resetStream(rpc)
+		sendReset = true
+		return nil
 	}
 
 	streamId := rpc.Id
@@ -621,7 +632,14 @@ func (h *handler) resetStream(rpc *goatorepo.Rpc) error {
 		reset.Header.ProxyNext = rpc.Header.ProxyRecord[0 : len(rpc.Header.ProxyRecord)-1]
 	}
 
-	return h.rw.Write(h.ctx, reset)
+	// Like every other response the reset is written by the writer goroutine,
+	// so it cannot overtake a trailer that stream has already handed over.
+	select {
+	case h.writeChan <- reset:
+		return nil
+	case <-h.ctx.Done():
+		return context.Cause(h.ctx)
+	}
 }
 
 // contextFromHeaders returns a new incoming context with metadata populated
